@@ -101,4 +101,66 @@ theorem iter_none (C : Consts) (hstep : 0 < C.step) (sizes : Nat → Nat) (s : S
             cases hpend
           · omega
 
+/-- **The server loop rotates exactly as `SelectAll` prescribes**: with nothing to accept, one iteration of
+    `Server::run` serves the connection that `SelectAll` picks when started right after the previous winner,
+    and records it as the new previous winner - whatever else the iteration does (reply, error, drop of the
+    connection, hand-over to a reply stream). When no connection is ready the previous winner is kept. -/
+theorem iter_rotation (C : Consts) (sizes : Nat → Nat) (s s' : S) (hq : s.listenQ = []) (hn : 0 < s.conns.length)
+    (h : iter C sizes s = some s') :
+    match Sel.selectAll s.conns.length (some (nextStart s)) (readyOf C sizes s.conns) with
+    | some w => s'.lastCall = some w
+    | none => s'.lastCall = s.lastCall := by
+  have hsel := scanCalls_winner C sizes s.conns.length (nextStart s) hn s.conns s.conns.length (Nat.le_refl _) s.conns rfl (fun _ _ _ => rfl)
+  have hsa : Sel.selectAll s.conns.length (some (nextStart s)) (readyOf C sizes s.conns)
+      = Sel.scan s.conns.length (nextStart s) (readyOf C sizes s.conns) s.conns.length := by
+    simp [Sel.selectAll, Nat.ne_of_gt hn]
+  rw [hsa, ← hsel]
+  unfold iter at h
+  rw [hq] at h
+  simp only [] at h
+  rw [if_neg (Nat.ne_of_gt hn)] at h
+  cases hsc : (scanCalls C sizes s.conns.length (nextStart s) s.conns.length s.conns).2 with
+  | none =>
+    rw [hsc] at h
+    simp only [Option.map_none]
+    simp only [] at h
+    split at h
+    · cases h
+    · split at h
+      · cases h
+      · rename_i items c hp
+        cases items with
+        | nil => simp only [Option.some.injEq] at h; rw [← h]
+        | cons it rest =>
+          simp only [] at h
+          split at h <;> (simp only [Option.some.injEq] at h; rw [← h])
+  | some x =>
+    obtain ⟨idx, o, c⟩ := x
+    rw [hsc] at h
+    simp only [Option.map_some]
+    simp only [] at h
+    cases o with
+    | pending => simp only [Option.some.injEq] at h; rw [← h]
+    | err e => simp only [Option.some.injEq] at h; rw [← h]
+    | frame f =>
+      simp only [] at h
+      cases hc : c.calls with
+      | nil => rw [hc] at h; simp only [Option.some.injEq] at h; rw [← h]
+      | cons d rest =>
+        rw [hc] at h
+        simp only [] at h
+        cases d with
+        | garbage => simp only [Option.some.injEq] at h; rw [← h]
+        | sub m p => simp only [Option.some.injEq] at h; rw [← h]
+        | echo v ow =>
+          simp only [] at h
+          split at h
+          · simp only [Option.some.injEq] at h; rw [← h]
+          · split at h <;> (simp only [Option.some.injEq] at h; rw [← h])
+        | fail ow =>
+          simp only [] at h
+          split at h
+          · simp only [Option.some.injEq] at h; rw [← h]
+          · split at h <;> (simp only [Option.some.injEq] at h; rw [← h])
+
 end Srv
